@@ -80,7 +80,15 @@ impl Pattern {
     /// Allows to specify case sensitivity
     pub fn regex_with(pattern: &str, opts: &PatternOpts) -> Result<Pattern, PatternError> {
         let pattern = pattern.trim_start_matches('^');
-        let pattern = pattern.trim_end_matches('$');
+        // Strip the end anchors, but not an escaped (i.e. literal) dollar sign
+        let mut pattern = pattern;
+        while let Some(body) = pattern.strip_suffix('$') {
+            let backslashes = body.chars().rev().take_while(|c| *c == '\\').count();
+            if backslashes % 2 == 1 {
+                break;
+            }
+            pattern = body;
+        }
         let pattern = pattern.to_string();
 
         let anchored_regex = "^".to_string() + &pattern + "$";
